@@ -105,6 +105,14 @@ def handle (args : List String) : String :=
       let cw := codewordFns c
       let r := enumTerm GInt.I c.n cw MP.one :: weightEnum GInt.I c.n cw
       return s!"{countH c.encode} " ++ ";".intercalate (r.map fun ab => s!"{ab.1.re},{ab.2.re}")
+  | ["wenumk", name, k] => Id.run do
+      -- the enumerators of the first k code words (k need not be a power of two)
+      let some c := findCode name | return "bad-op"
+      let some k := k.toNat? | return "bad-op"
+      if !allOk c.n c.encode || k = 0 || k > c.K then return "bad-op"
+      let cw := (codewordFns c).take k
+      let r := enumTerm GInt.I c.n cw MP.one :: weightEnum GInt.I c.n cw
+      return s!"{countH c.encode} " ++ ";".intercalate (r.map fun ab => s!"{ab.1.re},{ab.2.re}")
   | ["errlist", n, d] => Id.run do
       let some n := n.toNat? | return "bad-op"
       let some d := d.toNat? | return "bad-op"
